@@ -53,9 +53,34 @@ def translate():
     out["align_cap"] = "None" if cap is None else "Some %d" % cap
     # ---------------- .loop
     l = arm(cg, r"Token::Loop \{ expr, loop_scope, block, \.\. \} => \{", "Token::Loop")
-    if not re.match(r"if let Some\(loop_count\) = self\.evaluate_expression_as_i64\(expr, true\)\? \{ for index in 0\.\.loop_count \{", l):
+    ml = re.match(r"if let Some\(loop_count\) = self\.evaluate_expression_as_i64\(expr, true\)\? \{ "
+                  r"(if loop_count > MAX_LOOP_ITERATIONS - self\.loop_iterations \{ return Err\(Diagnostic::error\(\)[^;]*; \} "
+                  r"self\.loop_iterations \+= loop_count\.max\(0\); )?for index in 0\.\.loop_count \{", l)
+    if not ml:
         raise ShapeError("Token::Loop: iteration has unrecognised shape")
-    out["loop_count_limit"] = "None"          # no bound on the number of iterations
+    if ml.group(1):
+        mc = re.search(r"const MAX_LOOP_ITERATIONS: i64 = (0x[0-9a-fA-F]+|\d+);", cg)
+        if not mc or "self.loop_iterations = 0;" not in cg:
+            raise ShapeError("MAX_LOOP_ITERATIONS / the per-pass reset of loop_iterations not found")
+        out["loop_count_limit"] = "Some %d" % int(mc.group(1), 0)      # budget of all loops of one pass together
+    else:
+        out["loop_count_limit"] = "None"          # no bound on the number of iterations
+    # ---------------- nesting depth of emit_token (blocks, ifs, loops, macro invocations, imports, segment / label / test blocks)
+    mn = re.search(r"fn emit_token\(&mut self, token: &Token\) -> CoreResult<\(\)> \{ match Self::nesting_span\(token\) \{ Some\(span\) => \{ "
+                   r"if self\.nesting_depth >= MAX_NESTING_DEPTH \{ (if self\.current_segment\.as_ref\(\)\.map\(\|s\| s\.as_str\(\)\) == Some\(\"\$dummy\"\) \{ return Ok\(\(\)\); \} )?"
+                   r"return Err\(Diagnostic::error\(\)[^;]*; \} self\.nesting_depth \+= 1; let result = self\.emit_token_impl\(token\); "
+                   r"self\.nesting_depth -= 1; result \} None => self\.emit_token_impl\(token\), \} \}", norm(cg))
+    if mn:
+        md = re.search(r"const MAX_NESTING_DEPTH: usize = (\d+);", cg)
+        ns = norm(between(cg, r"fn nesting_span\(token: &Token\) -> Option<Span> \{", r"\n    \}", "nesting_span"))
+        kinds = re.findall(r"Token::(\w+) \{", ns)
+        if not md or sorted(kinds) != sorted(["Braces", "If", "Import", "Label", "Loop", "MacroInvocation", "Segment", "Test"]):
+            raise ShapeError("nesting_span does not cover exactly the tokens that contain tokens: %s" % kinds)
+        out["nesting_depth_limit"] = "Some %d%%nat" % int(md.group(1))
+    elif re.search(r"fn emit_token\(&mut self, token: &Token\) -> CoreResult<\(\)> \{ match token \{", norm(cg)):
+        out["nesting_depth_limit"] = "None"
+    else:
+        raise ShapeError("emit_token: the nesting guard has unrecognised shape")
     # ---------------- import
     i = arm(cg, r"Token::Import \{ args, import_scope, filename, block, resolved_path, \.\. \} => \{", "Token::Import")
     cyc = bool(re.search(r"if imported_name == self\.tree\.main_file\(\)\.file\.name\(\) \|\| self\.import_stack\.contains\(&imported_name\) \{ return Err\(", i))
@@ -69,7 +94,7 @@ def translate():
     mi = arm(cg, r"Token::MacroInvocation \{ id: name, args, \.\. \} => \{", "Token::MacroInvocation")
     if "s.emit_tokens(&def.block)?;" not in mi:
         raise ShapeError("Token::MacroInvocation: emission of the block has unrecognised shape")
-    out["macro_depth_limit"] = "None"
+    out["macro_depth_limit"] = "None"      # (no limit of its own; see nesting_depth_limit)
     # ---------------- names
     seg = arm(cg, r"Token::Segment \{ id, block, \.\. \} => \{", "Token::Segment")
     seg_checked = bool(re.search(r"if let Some\(segment_name\) = self\.evaluate_expression_as_string\(id, true\)\? \{ if segment_name\.contains\('\.'\) \{ return Err\(", seg))
@@ -151,10 +176,54 @@ def translate():
         out["branch_sub_checked"] = B(False)
     else:
         raise ShapeError("branch arm: offset computation has unrecognised shape")
+    # ---------------- bank size limit
+    mb = re.search(r"if !\(0\.\.=MAX_BANK_SIZE\)\.contains\(&size\) \{ return Err\(", ncg)
+    mbc = re.search(r"const MAX_BANK_SIZE: i64 = (0x[0-9a-fA-F_]+|[\d_]+);", cg)
+    if mb and mbc:
+        out["bank_size_limit"] = "Some %d" % int(mbc.group(1).replace("_", ""), 0)
+    elif re.search(r"if size < 0 \{ return Err\(", ncg):
+        out["bank_size_limit"] = "None"
+    else:
+        raise ShapeError(".define bank: size check has unrecognised shape")
+    # ---------------- parser: nesting guard, and the two places that parsed the same text twice per nesting level
+    ps = norm(strip_comments(read("mos-core/src/parser/mod.rs")))
+    ast = norm(strip_comments(read("mos-core/src/parser/ast.rs")))
+    guards = ["nested(many0(alt((statement, error_in_block))))" in ps, "tuple((ws(char('(')), nested(expression), ws(char(')'))))" in ps,
+              "opt(nested(expression_arg_list))," in ps]
+    mp = re.search(r"pub const MAX_NESTING_DEPTH: usize = (\d+);", ast)
+    nest_fn = re.search(r"fn nested<'a, F, T>\(mut parser: F\) -> impl FnMut\(LocatedSpan<'a>\) -> IResult<'a, T> where F: FnMut\(LocatedSpan<'a>\) -> IResult<'a, T>, \{ "
+                        r"move \|input\| \{ let state = input\.extra\.clone\(\); let result = if state\.shared_state\(\)\.enter_nesting\(\) \{ parser\(input\) \} else \{.*?"
+                        r"Err\(nom::Err::Error\(.*?\)\)\) \}; state\.shared_state\(\)\.leave_nesting\(\); result \} \}", ps)
+    enter = "pub fn enter_nesting(&mut self) -> bool { self.nesting_depth += 1; self.nesting_depth <= MAX_NESTING_DEPTH }" in ast
+    if all(guards) and mp and nest_fn and enter:
+        out["parser_nesting_limit"] = "Some %d%%nat" % int(mp.group(1))
+    elif not any(guards):
+        out["parser_nesting_limit"] = "None"
+    else:
+        raise ShapeError("parser: the nesting guard covers only some of block / expression_parens / fn_call arguments")
+    out["factor_retry_guarded"] = B("preceded( peek(one_of(\"!-\")), tuple(( opt(ws(char('!'))), opt(ws(char('-'))), expression_factor_inner, )), )" in ps)
+    if not out["factor_retry_guarded"] == "true" and "tuple(( opt(ws(char('!'))), opt(ws(char('-'))), expression_factor_inner, ))" not in ps:
+        raise ShapeError("expression_factor: flags alternative has unrecognised shape")
+    if "many0(tuple((ws(parse_item()), ws(char(','))))), ws(parse_item())," in ps:
+        out["arg_list_items_parsed_once"] = B(False)
+    elif re.search(r"let \(mut input, mut item\) = ws\(parse_item\(\)\)\(input\)\?; let mut result: Vec<_> = vec!\[\]; loop \{ match ws\(char\(','\)\)\(input\.clone\(\)\) \{ "
+                   r"Ok\(\(after_comma, comma\)\) => \{ let \(next_input, next_item\) = ws\(parse_item\(\)\)\(after_comma\)\?;", ps):
+        out["arg_list_items_parsed_once"] = B(True)
+    else:
+        raise ShapeError("arg_list has unrecognised shape")
+    # ---------------- function callbacks: a Mutex around the callback makes a nested call of the same function deadlock
+    ev = norm(strip_comments(read("mos-core/src/codegen/evaluator.rs")))
+    if "pub type FunctionMap = HashMap<String, Arc<Mutex<dyn FunctionCallback + Send + Sync>>>;" in ev:
+        out["function_callbacks_locked"] = B(True)
+    elif "pub type FunctionMap = HashMap<String, Arc<dyn FunctionCallback + Send + Sync>>;" in ev and "callback.lock()" not in ev:
+        out["function_callbacks_locked"] = B(False)
+    else:
+        raise ShapeError("FunctionMap has unrecognised shape")
     lines = ["(* GENERATED by translate/t_c06sites.py from mos-core/src/{codegen/mod.rs,codegen/segment.rs,codegen/program_counter.rs,"
              "codegen/config_extractor.rs,parser/identifier.rs}. DO NOT EDIT. *)",
              "From Coq Require Import ZArith.", "Open Scope Z_scope."]
-    types = {"align_cap": "option Z", "loop_count_limit": "option Z", "macro_depth_limit": "option nat", "pc_limit": "Z"}
+    types = {"align_cap": "option Z", "loop_count_limit": "option Z", "macro_depth_limit": "option nat", "pc_limit": "Z", "nesting_depth_limit": "option nat", "bank_size_limit": "option Z",
+             "parser_nesting_limit": "option nat"}
     for k in sorted(out):
         lines.append("Definition %s : %s := %s." % (k, types.get(k, "bool"), out[k]))
     fp = write_if_changed("C06Sites.v", "\n".join(lines) + "\n")
